@@ -33,6 +33,7 @@ import Proofs.FitInStep
 import Proofs.FitCoherent
 import Proofs.FitValid
 import Proofs.FitPayload
+import Proofs.FitAround
 import Proofs.JoinSuccess
 import Proofs.Placement
 import Props.C01
@@ -1268,6 +1269,60 @@ theorem deleteRange_emits_valid_payload (S : Schema) (hdet : detB S = true) (hle
   split at h
   · simp [throw, throwThe, MonadExceptOf.throw] at h
   · exact delete_emits_valid_payload S hdet hleaf doc _ _ hv hattrs st h
+
+/-- **`delete_around_is_move`** — a replace-around answer of `replace_step` for a deletion moves the rest of the
+    textblock of `to` behind `from`: `insert = 0` (nothing is placed in front of the gap), the gap is
+    `[to, to.end())`, the structure flag is not set -/
+theorem delete_around_is_move (S : Schema) (doc : Node) (f t : Nat) (hv : C01.Valid S doc)
+    (F T G1 G2 : Nat) (sl : Slice) (ins : Nat) (b : Bool)
+    (h : replaceStep S doc f t Slice.empty = .ok (some (.replaceAround F T G1 G2 sl ins b))) :
+    ins = 0 ∧ b = false ∧ ∃ rt, doc.resolve t = some rt ∧ G1 = rt.pos ∧ G2 = rt.end_ rt.depth :=
+  delete_around_shape S doc f t hv F T G1 G2 sl ins b h
+
+/-- **`delete_emits_payloadValid`** — *every* step `replace_step` emits for a deletion on a valid document has a
+    valid payload in the sense of C01 (`C01.PayloadValid`), the replace-around answers included: there the
+    payload is the slice *with the gap content in place* (`Slice.insert_at(insert, gap)`); the gap
+    `[to, to.end())` is a closed slice of valid nodes of the document (`gap_to_end_valid`: the prefix balance of
+    the document's tokens inside the parent's content window never drops below the parent's depth), it goes
+    in at position 0 — the start of the innermost node of the slice's open start spine — and valid closed
+    nodes in front of a valid payload leave it valid (`insertAt_zero_openValid`, Proofs/FitAround.lean). -/
+theorem delete_emits_payloadValid (S : Schema) (hdet : detB S = true) (hleaf : PM.FromDom.leafOkB S = true)
+    (doc : Node) (f t : Nat) (hv : C01.Valid S doc) (hattrs : S.nodeAttrsOK doc = true) (st : Step)
+    (h : replaceStep S doc f t Slice.empty = .ok (some st)) : C01.PayloadValid S doc st := by
+  obtain ⟨sl', hs, hval⟩ := delete_emits_valid_payload S hdet hleaf doc f t hv hattrs st h
+  cases st with
+  | replace F T sl b =>
+    simp only [Step.sliceOf, Option.some.injEq] at hs
+    subst hs
+    exact hval
+  | replaceAround F T G1 G2 sl ins b =>
+    exact delete_around_payload S (detS_of_detB S hdet) (PM.FromDom.leafOk_of_B S hleaf) doc f t hv hattrs
+      F T G1 G2 sl ins b h
+  | addMark _ _ _ => simp [Step.sliceOf] at hs
+  | removeMark _ _ _ => simp [Step.sliceOf] at hs
+  | attr _ _ _ => simp [Step.sliceOf] at hs
+  | docAttr _ _ => simp [Step.sliceOf] at hs
+  | addNodeMark _ _ => simp [Step.sliceOf] at hs
+  | removeNodeMark _ _ => simp [Step.sliceOf] at hs
+
+/-- the statement is not vacuous: deleting `[3, 8)` of `doc(blockquote(p("ab")), p("cd"))` — from inside the quoted
+    paragraph to inside the second one — is answered with a replace-around step that moves `"d"` behind `"a"`
+    (`insert = 0`, gap `[8, 9)`, slice `<blockquote(p())>(2,0)`) -/
+example :
+    let nt (name : String) (isText inl : Bool) (dfa : Array DfaState) : NodeType :=
+      { name := name, isText := isText, isInline := isText, isLeaf := isText, isAtom := isText,
+        inlineContent := inl, isolating := false, defining := false, code := false,
+        dfa := dfa, markSet := none, attrs := [] }
+    let S : Schema := { nodes := #[nt "doc" false false #[⟨false, [(1, 1), (3, 1)]⟩, ⟨true, [(1, 1), (3, 1)]⟩],
+                                   nt "paragraph" false true #[⟨true, [(2, 0)]⟩],
+                                   nt "text" true false #[⟨true, []⟩],
+                                   nt "blockquote" false false #[⟨false, [(1, 1), (3, 1)]⟩, ⟨true, [(1, 1), (3, 1)]⟩]],
+                        marks := #[], top := 0, textTy := 2 }
+    let doc := Node.elem 0 [] [] [.elem 3 [] [] [.elem 1 [] [] [.text [97, 98] []]], .elem 1 [] [] [.text [99, 100] []]]
+    detB S = true ∧ PM.FromDom.leafOkB S = true ∧ S.checkNode doc = true ∧ S.nodeAttrsOK doc = true ∧
+    (match replaceStep S doc 3 8 Slice.empty with
+     | .ok (some (.replaceAround 3 10 8 9 sl 0 false)) => sl == ⟨[.elem 3 [] [] [.elem 1 [] [] []]], 2, 0⟩
+     | _ => false) = true := by decide +kernel
 
 /-- **`insertInline_emits_valid_payload`** — the payload of every step `replace_step` emits for a closed slice of
     valid leaf / text nodes (typing, `insert`, `replace_with` of inline content: `Slice.inlineLeaves`, content
